@@ -530,15 +530,20 @@ End AtListOps.
 
 (* the hypotheses are satisfiable and decidable by computation: on the matrix
    of ListOps.listops_selftest (which needs a row exchange) the verification
-   succeeds under vm_compute, hence its ListOps inverse IS invmx *)
+   succeeds under vm_compute, hence its ListOps inverse represents invmx
+   (stated through repr: unfolding mx_of on the computed inverse inside the
+   kernel took 23 minutes and proves nothing more) *)
 Example refinement_selftest :
   let A : qmat := [:: [:: 0%Q; 2%Q; (1 # 3)%Q]; [:: (1 # 2)%Q; (-1)%Q; 4%Q];
                       [:: 3%Q; (5 # 7)%Q; 1%Q]] in
-  mx_of 3 3 A \in unitmx /\ mx_of 3 3 (qinv 3 A) = invmx (mx_of 3 3 A).
+  qinv_ok 3 A = true /\ wf_mx 3 3 A = true /\
+  exists M : 'M[rat]_3, [/\ repr A M, M \in unitmx & repr (qinv 3 A) (invmx M)].
 Proof.
 move=> A.
 have ok : qinv_ok 3 A = true by vm_compute.
 have wf : wf_mx 3 3 A = true by vm_compute.
 have [u h] := ListOps_minv ok (repr_self wf).
-by split=> //; have /repr_mx_of [] := h.
+split; first exact: ok.
+split; first exact: wf.
+exists (mx_of 3 3 A); split; [exact: (repr_self wf) | exact: u | exact: h].
 Qed.
